@@ -75,7 +75,7 @@ def check_identity(rep, cfg):
         if st not in POINTS:
             continue
         tr = b.get("impl_trait_def", "")
-        if (name == "is_identity" and not tr) or (name == "is_zero" and tr == "ark_ff::Zero"):
+        if (name == "is_identity" and not tr) or (name == "is_zero" and tr in ("ark_ff::Zero", "ark_ec::AffineRepr")):
             n += 1
             out = cfg.run(path)
             x, y = xy_of(cfg, mk("param", "self"), st)
@@ -93,6 +93,41 @@ def check_identity(rep, cfg):
     return n
 
 
+def check_inherited_predicates(rep, cfg):
+    """identity predicates a point type gets from an EXTERNAL trait's default method (not overridden in the crate): the default body,
+    applied to the crate's own required methods, must still be the coset test X == 0.
+    arkworks: AffineRepr::is_zero(&self) = self.xy().is_none();  twisted_edwards::Affine::xy() = None iff (x, y) == (0, 1)."""
+    N = cfg.norm
+    n = 0
+    for im in cfg.facts["impls"]:
+        st = im.get("self", "")
+        if st not in POINTS or im.get("trait_def") != "ark_ec::AffineRepr":
+            continue
+        if "is_zero" not in (im.get("inherited") or []):
+            continue            # overridden: covered by check_identity
+        n += 1
+        xy_path = next((it["path"] for it in im["items"] if it["name"] == "xy"), None)
+        key = "IDENT/%s/<%s as AffineRepr>::is_zero(inherited default)" % (cfg.name, st.split("::")[-1])
+        if xy_path is None or cfg.prog.body(xy_path) is None:
+            rep.ob(key, False, "cannot find the crate's xy() that the inherited default is_zero() = xy().is_none() is built on")
+            continue
+        out = cfg.run(xy_path)
+        x, y = xy_of(cfg, mk("param", "self"), st)
+        v = out.value
+        if v.op == "te_xy":       # arkworks twisted-Edwards affine accessor: None exactly at the point (0, 1)
+            got = Tm.and_(Tm.eq(field(v.args[0], "x"), mk("felem", "fq", 0)), Tm.eq(field(v.args[0], "y"), mk("felem", "fq", 1)))
+        else:
+            got = Tm.is_variant(v, "None")
+        want = Tm.eq(x, mk("felem", "fq", 0))
+        ok = N.cond(got) == N.cond(want) and not out.unmodelled
+        rep.ob(key, ok,
+               "the arkworks zero test of affine points is the trait default `self.xy().is_none()`; with this xy() it is %s, i.e. true for the "
+               "representative (0, 1) only, while == zero() / is_identity hold for every representative of the identity coset (X == 0): "
+               "override is_zero (or make xy() return None on the whole coset)" % Tm.show(got, maxdepth=6),
+               where=im.get("sp"), sample={"obligation": key, "term": Tm.show(got, maxdepth=5)})
+    return n
+
+
 def run(rep, facts, tier):
     rep.explanation = (
         "TERM: the PartialEq impls of Element/AffinePoint are interpreted and their condition, as a canonical polynomial predicate, must be "
@@ -102,13 +137,13 @@ def run(rep, facts, tier):
     rep.rules += ["TERM", "OBS", "IDENT", "CONST"]
     rep.trusted += ["rustc trait resolution", "summary table"]
     rep.assumptions += ["'equal iff same encoding' beyond conformance of eq and encode is Decaf section 4.5 (assumed)",
-                        "AffineRepr::xy / is_zero provided by arkworks expose raw coordinates by design and are not identity predicates of the crate"]
+                        "AffineRepr::xy / x / y expose raw coordinates by design and are accessors, not identity predicates"]
     counts = {}
     for name, f in facts.items():
         if name == "R":
             continue
         cfg = Cfg(f)
-        counts[name] = {"eq": check_eq(rep, cfg), "hash": check_hash(rep, cfg), "identity": check_identity(rep, cfg)}
+        counts[name] = {"eq": check_eq(rep, cfg), "hash": check_hash(rep, cfg), "identity": check_identity(rep, cfg) + check_inherited_predicates(rep, cfg)}
         c17.curve_constants(rep, f, name)
     rep.analysed["observers"] = counts
     if "A" in counts:
